@@ -508,7 +508,7 @@ def run_pipeline(
         # Prepare the final dictionary to construct the `DataTree`.
         dct: dict[str, xr.Dataset | xr.DataTree | None] = {}
 
-        if not detector.scene.data.is_empty and not with_inherited_coords:
+        if detector.scene.data.children and not with_inherited_coords:
             warnings.warn(
                 "The 'Scene' container is not empty.\n"
                 "To ensure proper behavior, the 'with_inherited_coords' parameter must be set to True when calling 'pyxel.run_mode'.\n"
